@@ -21,6 +21,12 @@ E5  free-running rounds (real threads, no controller): a kNotDeferred or deferre
     overlap INSIDE one step of the controlled scheduler (a claim that is not one atomic RMW is invisible to E2-E4).  One
     record per batch: functors executed twice / never, get() values that differ from the functor's value, functor copies
     and shared states still alive, task-set counters; validated by TLC (FutureRaceObs.tla).
+    Second class of rounds (same run, same validator): timed waits racing the pool thread's claim of a kNotDeferred
+    future - the owner and 3 poller threads spin on wait_for(tiny) / wait_until(now + tiny) from before the worker
+    claims the functor (held behind a gate task until all of them spin) until after the owner releases the functor,
+    which blocks on a flag; `ready` must never be reported before the functor has finished (the status word changes
+    twice under such waiters, kNotStarted -> kRunning -> kReady; the window between a waiter's load of the word and
+    the kernel's compare is inside one controlled step), ready stays ready, get() agrees, the functor ran once.
 """
 import json
 import os
@@ -68,20 +74,31 @@ def run(ctx):
     # a store of a non-atomic claim exists only in truly concurrent executions)
     rounds = 600000 if thorough else 40000
     obs = os.path.join(ctx.work, 'race.ndjson')
-    tot, _ = ctx.driver(exe, ['--out', obs, '--race', rounds, '--batch', 4000, '--seed', ctx.seed], WHAT,
-                        label='free-running: get / wait racing the pool task', allow_incomplete=True, timeout=900)
+    # + timed waits (wait_for / wait_until pollers) racing the pool task's claim of a kNotDeferred future: for those
+    # waiters the status word changes twice, and only a free-running waiter can sample it just before the claim
+    timed = 60000 if thorough else 4000
+    tot, _ = ctx.driver(exe, ['--out', obs, '--race', rounds, '--batch', 4000, '--timed', timed, '--tbatch', 500,
+                              '--seed', ctx.seed], WHAT,
+                        label='free-running: get / wait racing the pool task; timed waits racing its claim',
+                        allow_incomplete=True, timeout=900)
     ctx.validate(fc.SPEC, 'FutureRaceObs.tla', 'FutureRaceObs.cfg', obs,
                  WHAT + ' (free-running waiter vs pool task: executions, values, releases)',
                  executions=tot.get('completed', 0), label='E5 race records')
     fc.cleanup()
-    recs = [json.loads(x) for x in open(obs) if x.strip()]
+    allrecs = [json.loads(x) for x in open(obs) if x.strip()]
+    recs = [r for r in allrecs if r['e'] == 'Race']
+    trecs = [r for r in allrecs if r['e'] == 'TimedRace']
     nd, inlnd = sum(r['nd'] for r in recs), sum(r['inlnd'] for r in recs)
-    ctx.cov['free_running_rounds'] = sum(r['rounds'] for r in recs)
+    ctx.cov['free_running_rounds'] = sum(r['rounds'] for r in allrecs)
+    ctx.cov['free_running_timed_race'] = {k: sum(r[k] for r in trecs) for k in ('rounds', 'polls', 'pre', 'mid')}
     ctx.cov['free_running_race'] = {'not_deferred_rounds': nd, 'claimed_by_a_getter': inlnd, 'claimed_by_the_pool': nd - inlnd}
     ctx.sample_trace(obs, 3)
     if recs and not any(r['stuck'] for r in recs) and (inlnd == 0 or inlnd == nd):
         # not a verdict about the library: the two claims never met, the engine observed nothing
         raise vlib.ToolError('E5 race rounds are vacuous: %d kNotDeferred rounds, %d claimed by a getter' % (nd, inlnd))
+    if trecs and not any(r['stuck'] for r in allrecs) and (sum(r['pre'] for r in trecs) == 0 or sum(r['mid'] for r in trecs) == 0):
+        # not a verdict about the library: no timed wait ended before the claim / while the functor ran
+        raise vlib.ToolError('E5 timed-wait rounds are vacuous: %r' % ctx.cov['free_running_timed_race'])
     ctx.assumptions += fc.ASSUME
     ctx.assumptions.append('E5 observes, per batch of free-running rounds on the real pool with real threads, only what the '
                            'callers of the public API see (execution counts of their functors, values returned by get(), '
